@@ -157,9 +157,30 @@ def gen_sequence(seed):
         elif x < 0.9:
             cwd = rnd.choice(dirs)
             ops.append(["cd", cwd])
-        else:
+        elif x < 0.95:
             ops.append(["list", spell(rnd.choice(dirs))])
+        else:
+            # the same relative name asked about from two working directories, nothing modified
+            # in between (a client that remembers listings must forget them on CWD)
+            name = rnd.choice(NAMES + names + ["keep.txt", "o", "x"])
+            ops.append(["probe", name])
+            cwd = rnd.choice(dirs)
+            ops.append(["cd", cwd])
+            ops.append(["probe", name])
+            others = sorted(k for k in model if k not in ("/", cwd))  # (the LIST fallback cannot stat the root / "." itself)
+            if others and rnd.random() < 0.5:
+                ops.append(["probe", spell(rnd.choice(others))])
     return {"seed": seed, "kind": "sequence", "trees": trees, "names": names, "ops": ops, "block": rnd.choice([7, 64, 8192]), "no_mlsx": rnd.random() < 0.35, "tree": {}, "dest": "seq", "cwd": "/", "write_into": False, "srcname": "src"}
+
+
+def gen_faulted(seed):
+    """one operation with the k-th backend call of the server failing (EIO): the operation must
+    either raise or have done exactly what it does without the fault"""
+    c = gen_case(seed)
+    rnd = random.Random(seed * 5237 + 17)
+    c["kind"] = rnd.choice(["upload", "download", "remove", "remove", "list"])
+    c["fault_k"] = rnd.randint(1, 25)
+    return c
 
 
 def gen_unreadable(seed):
@@ -227,6 +248,11 @@ def run_case(case):
             await client.login()
             await client.change_directory(cwd)
             before = remote_snapshot()
+
+            def arm():
+                if case.get("fault_k"):
+                    world.fsctl.fail_at[world.fsctl.n + case["fault_k"]] = 5  # EIO
+
             if kind in ("upload", "upload_file"):
                 # local tree under /local/<srcname>
                 if kind == "upload":
@@ -237,7 +263,15 @@ def run_case(case):
                     local = with_parents({"/local/" + srcname: content})
                     placed_src = content
                 simfs.mem_populate(client.path_io.fs, {k: v for k, v in local.items() if k != "/"})
-                await client.upload("/local/" + srcname, case["dest"], write_into=case["write_into"], block_size=case["block"])
+                arm()
+                try:
+                    await client.upload("/local/" + srcname, case["dest"], write_into=case["write_into"], block_size=case["block"])
+                except aioftp.StatusCodeError as e:
+                    if not world.fsctl.faults_fired:
+                        raise
+                    info["refused_under_fault"] = str(e.received_codes)
+                    await asyncio.wait_for(server.close(), 1e4)
+                    return
                 dest_abs = absolutize(cwd, case["dest"]) if case["dest"] else cwd
                 target = dest_abs if case["write_into"] else (dest_abs.rstrip("/") + "/" + srcname)
                 if kind == "upload":
@@ -279,6 +313,15 @@ def run_case(case):
                         await client.change_directory(op[1])
                         mcwd = op[1]
                         what = f"change_directory({op[1]!r})"
+                    elif op[0] == "probe":
+                        pabs = absolutize(mcwd, op[1])
+                        got = (await client.exists(op[1]), await client.is_file(op[1]) if pabs in model else None, await client.is_dir(op[1]) if pabs in model else None)
+                        want = (pabs in model, (model[pabs] is not None) if pabs in model else None, (model[pabs] is None) if pabs in model else None)
+                        info["probes"] = info.get("probes", 0) + 1
+                        if got != want:
+                            viol.append({"clause": "stat-hits-another-object", "subject": "sequence", "detail": f"operation {n} exists/is_file/is_dir({op[1]!r}) from cwd {mcwd} after {case['ops'][:n]}: got {got}, the remote tree says {want}"})
+                            break
+                        continue
                     elif op[0] == "list":
                         pabs = absolutize(mcwd, op[1])
                         got = sorted(absolutize(mcwd, str(p)) for p, inf in await client.list(op[1], recursive=True))
@@ -326,7 +369,15 @@ def run_case(case):
                     ldest = "/ldst/" + case["dest"].strip("/") if case["dest"] not in ("", "/") else "/ldst"
                     simfs.mem_populate(client.path_io.fs, {"/ldst": None})
                     lbefore = local_snapshot()
-                    await client.download(src_arg, ldest, write_into=case["write_into"], block_size=case["block"])
+                    arm()
+                    try:
+                        await client.download(src_arg, ldest, write_into=case["write_into"], block_size=case["block"])
+                    except aioftp.StatusCodeError as e:
+                        if not world.fsctl.faults_fired:
+                            raise
+                        info["refused_under_fault"] = str(e.received_codes)
+                        await asyncio.wait_for(server.close(), 1e4)
+                        return
                     target = ldest if case["write_into"] else ldest.rstrip("/") + "/" + srcname
                     placed = flatten(tree, target) if kind == "download" else {target: content}
                     want = with_parents({**lbefore, **placed})
@@ -339,7 +390,16 @@ def run_case(case):
                     if remote_snapshot() != before:
                         viol.append({"clause": "download-changed-remote", "subject": subject, "detail": "the remote tree changed during a download"})
                 elif kind == "list":
-                    got = [str(p) for p, inf in await client.list(src_arg, recursive=True)]
+                    arm()
+                    try:
+                        got = [str(p) for p, inf in await client.list(src_arg, recursive=True)]
+                    except aioftp.StatusCodeError as e:
+                        if not world.fsctl.faults_fired:
+                            raise
+                        info["refused_under_fault"] = str(e.received_codes)
+                        await asyncio.wait_for(server.close(), 1e4)
+                        return
+                    world.fsctl.fail_at.clear()
                     base = pathlib.PurePosixPath(src_arg)
                     want = sorted(str(base / pathlib.PurePosixPath(k).relative_to(rsrc)) for k in flatten(tree, rsrc) if k != rsrc)
                     if sorted(got) != want:
@@ -355,7 +415,15 @@ def run_case(case):
                         if key in types and types[key] != ("dir" if v is None else "file"):
                             viol.append({"clause": "recursive-listing-differs", "subject": subject, "detail": f"{key}: type {types[key]}"})
                 else:
-                    await client.remove(src_arg)
+                    arm()
+                    try:
+                        await client.remove(src_arg)
+                    except aioftp.StatusCodeError as e:
+                        if not world.fsctl.faults_fired:
+                            raise
+                        info["refused_under_fault"] = str(e.received_codes)
+                        await asyncio.wait_for(server.close(), 1e4)
+                        return
                     want = {k: v for k, v in before.items() if not (k == rsrc or k.startswith(rsrc + "/"))}
                     got = remote_snapshot()
                     if got != want:
@@ -388,7 +456,7 @@ def run_case(case):
             "events": world.net.seq,
             "steps": world.loop.steps,
             "outcome": world.outcome,
-            "counters": {f"kind.{kind}": 1, "probe.operations_in_one_connection_sequences": info.get("seq_ops", 0), "probe.download_refused_for_unreadable_entry": int(info.get("returned") is False)},
+            "counters": {f"kind.{kind}": 1, "probe.operations_in_one_connection_sequences": info.get("seq_ops", 0), "probe.download_refused_for_unreadable_entry": int(info.get("returned") is False), "probe.stat_probes_in_sequences": info.get("probes", 0), "faults.backend_call_failed_during_operation": len(world.fsctl.faults_fired), "probe.operation_raised_under_fault": int("refused_under_fault" in info)},
             "groups": {"dest": {case["dest"] or "''": 1}, "cwd": {cwd: 1}},
             "violations": out,
         }
@@ -453,7 +521,7 @@ def minimise(case, violation):
 
 
 def selftest_cases(n):
-    return [gen_case(150_000 + i) for i in range(n)] + [gen_sequence(151_000 + i) for i in range(n // 3)] + [gen_unreadable(152_000 + i) for i in range(n // 10)]
+    return [gen_case(150_000 + i) for i in range(n)] + [gen_sequence(151_000 + i) for i in range(n // 3)] + [gen_unreadable(152_000 + i) for i in range(n // 10)] + [gen_faulted(153_000 + i) for i in range(n // 5)]
 
 
 def main(argv=None):
@@ -487,6 +555,8 @@ def main(argv=None):
                     yield gen_sequence(sd)
                 elif i % 10 == 7:
                     yield gen_unreadable(sd)
+                elif i % 10 in (1, 6):
+                    yield gen_faulted(sd)
                 else:
                     yield gen_case(sd)
 
